@@ -153,6 +153,150 @@ def s2c(ctx, cases):
         ctx.traces += 1
 
 
+# ---------------------------------------------------------------------------------------------------------
+# sessions (spec/IncSession.tla): one table, a pool of caller-owned filter objects, a history of calls that
+# take one or several filters from the pool in any spelling; the pool and the table are snapshotted after
+# every call
+# ---------------------------------------------------------------------------------------------------------
+PRED_NAME = {id(f): n for n, f in PREDS.items()}
+RE_NAME = {id(r): n for n, r in REGEX.items()}
+
+
+def seq(x):
+    """TLC prints an empty sequence as [] and an empty function as {}"""
+    return list(x) if x else []
+
+
+def render_pool(pool, ids):
+    """the caller's objects: a dict of conditions (lists of admissible values are fresh list objects) or a callable"""
+    return [PREDS[f['name']] if f['kind'] == 'pred' else {c: cell_cond(cc, ids) for c, cc in seq(f['items'])} for f in pool]
+
+
+def enc_obj(o, ids):
+    """a pool object as its owner sees it; a dict has no order that matters: conditions by column name"""
+    if type(o) is dict:
+        def e(v):
+            if isinstance(v, list): return ['list', [tag(x, ids) for x in v]]
+            if id(v) in RE_NAME: return ['re', RE_NAME[id(v)]]
+            return ['val', tag(v, ids)]
+        return {'kind': 'dict', 'name': '', 'items': [[str(c), e(v)] for c, v in sorted(o.items(), key=lambda kv: str(kv[0]))]}
+    if id(o) in PRED_NAME:
+        return {'kind': 'pred', 'name': PRED_NAME[id(o)], 'items': []}
+    return {'kind': 'other', 'name': type(o).__name__, 'items': []}
+
+
+def spelled(call, pool):
+    """the shape of a call, e.g. inc(d,f,**d) - a stable key for known-finding matchers"""
+    a = ['d' if pool[s - 1]['kind'] == 'dict' else 'f' for s in seq(call['pos'])]
+    if call['kw']: a.append('**d')
+    if call['x']: a.append('exc=d')
+    return '%s(%s)' % (call['op'] if call['op'] != 'find' else 'find_' + call['col'], ','.join(a))
+
+
+def run_session(t_abs, pool_abs, calls):
+    """replay a history on ONE real table with ONE set of filter objects; every call is logged with its outcome and
+    with the pool and the table as the caller sees them afterwards"""
+    ids = IdMap()
+    d = table_from(t_abs, ids)
+    objs = render_pool(pool_abs, ids)
+    o = {'op': 'session', 't': t_abs, 'pool': [enc_obj(x, ids) for x in objs], 'calls': []}
+    for c in calls:
+        c = {'op': c['op'], 'col': c['col'], 'pos': seq(c['pos']), 'kw': c['kw'], 'x': c['x']}
+        args = [objs[s - 1] for s in c['pos']]
+        kw = objs[c['kw'] - 1] if c['kw'] else {}
+        try:
+            if c['op'] == 'find':
+                out = {'kind': 'val', 'v': tag(getattr(d, 'find_' + c['col'])(*args, **kw), ids)}
+            elif c['op'] == 'one':
+                res = d.one_or_none(*args, exc=objs[c['x'] - 1], **kw) if c['x'] else d.one_or_none(*args, **kw)
+                out = {'kind': 'none'} if res is None else {'kind': 'row', 'row': {k: tag(v, ids) for k, v in res.items()}}
+            else:
+                out = proj_table(d.inc(*args, **kw) if c['op'] == 'inc' else d.exc(*args, **kw), ids)
+                out['cols'] = sorted(out['cols'])
+                out['kind'] = 'table'
+        except Exception as e:
+            out = {'kind': 'exc', 'cls': type(e).__name__}
+        o['calls'].append({'call': c, 'out': out, 'pool_after': [enc_obj(x, ids) for x in objs], 't_after': proj_table(d, ids)})
+    return o
+
+
+def session_case(o, k):
+    """the history up to and including call k (1-based) - what a violation is reported and matched on"""
+    calls = [e['call'] for e in o['calls'][:k]]
+    return {'op': 'session', 'form': spelled(calls[-1], o['pool']), 'forms': [spelled(c, o['pool']) for c in calls],
+            't': o['t'], 'pool': o['pool'], 'calls': calls}
+
+
+OUTCOME_CLAUSE = {'inc': 'inc_rows', 'exc': 'exc_rows', 'find': 'find_value', 'one': 'one_or_none'}
+
+
+def s2c_sessions(ctx, snaps, label):
+    """replay the histories TLC enumerated: after every call the pool and the table must equal the state TLC printed, the
+    outcome must be one of those the law allows (plain == / membership in the printed list)"""
+    from harness.core import Machinery
+    for k, s in enumerate(snaps):
+        hist = seq(s['hist'])
+        o = run_session(s['t'], s['pool'], [h['call'] for h in hist])
+        if o['pool'] != s['snap']:
+            raise Machinery('C06 sessions: the rendered pool does not encode back to what TLC printed: %r / %r' % (o['pool'], s['snap']))
+        ctx.evals += len(hist)
+        ctx.traces += 1
+        for i, (h, e) in enumerate(zip(hist, o['calls'])):
+            if e['t_after'] != s['t']:
+                clause, detail = 'operand_changed', {'after': e['t_after']}
+            elif e['pool_after'] != s['snap']:
+                clause, detail = 'filter_argument_changed', {'pool_after': e['pool_after']}
+            elif e['out'] not in seq(h['want']):
+                clause, detail = OUTCOME_CLAUSE[h['call']['op']], {'expected_one_of': seq(h['want']), 'observed': e['out']}
+            else:
+                continue
+            ctx.violation(clause, session_case(o, i + 1), detail)
+            break
+        if any(len(seq(h['call']['pos'])) + (1 if h['call']['kw'] else 0) >= 2 for h in hist):
+            ctx.note((label, k))
+        if k % 4999 == 1:
+            ctx.sample({'s2c_session': {'t': s['t'], 'pool': s['pool'], 'hist': hist}})
+
+
+def rand_session(rng):
+    """a random history on a random table: 2-5 pool objects, 2-6 calls each taking 0-3 of them"""
+    t, sub = rand_table(rng, 12)
+    cols = t['cols']
+    wild = rng.random() < 0.15            # now and then two filters disagree on a column: outside the domain, the spec says so
+    def cc():
+        q = rng.random()
+        if q < 0.45:
+            return ['val', rng.choice(sub + [["i", 99]])]
+        if q < 0.8:
+            return ['list', [rng.choice(sub + [["i", 99]]) for _ in range(rng.choice([0, 1, 2, 3]))]]
+        return ['re', rng.choice(sorted(REGEX))]
+    by_col = {c: cc() for c in cols}
+    pool = []
+    for _ in range(rng.choice([2, 3, 3, 4, 5])):
+        r = rng.random()
+        if r < 0.2:
+            pool.append({'kind': 'pred', 'name': rng.choice(sorted(PREDS)), 'items': []})
+        elif r < 0.27:
+            pool.append({'kind': 'dict', 'name': '', 'items': []})
+        else:
+            cs = rng.sample(cols, rng.choice([1, 1, 2, min(3, len(cols))]))
+            pool.append({'kind': 'dict', 'name': '', 'items': [[c, cc() if wild else by_col[c]] for c in cs]})
+    dicts = [i + 1 for i, f in enumerate(pool) if f['kind'] == 'dict']
+    calls = []
+    for _ in range(rng.choice([2, 3, 4, 6])):
+        op = rng.choice(['inc', 'inc', 'exc', 'exc', 'find', 'one'])
+        pos = [rng.randrange(len(pool)) + 1 for _ in range(rng.choice([0, 1, 1, 2, 2, 3]))]
+        seen = False
+        for i, sl in enumerate(pos):      # a single callable per call
+            if pool[sl - 1]['kind'] == 'pred':
+                if seen and dicts: pos[i] = rng.choice(dicts)
+                seen = True
+        kw = rng.choice(dicts) if dicts and rng.random() < 0.3 else 0
+        x = rng.choice(dicts) if dicts and op == 'one' and rng.random() < 0.4 else 0
+        calls.append({'op': op, 'col': rng.choice(cols) if op == 'find' else '', 'pos': pos, 'kw': kw, 'x': x})
+    return t, pool, calls
+
+
 def rand_table(rng, nmax):
     n = rng.choice([0, 1, 2, 3, 5, 8, 13, 21, nmax])
     n = min(n, nmax)
